@@ -1444,8 +1444,16 @@ pub fn c06_after(ck: &mut Checker, sim: &mut Sim, session: usize, _p: Proto, dat
         match (delivered, truth) {
             (Some(d), Some(tr)) => {
                 if d.as_slice() != tr.as_slice() {
+                    let interval = sim.plan.knobs.check_point_interval.max(1);
+                    let finalized = c.storage.get_last_check_point().0 as u64 * interval;
                     findings.push((
-                        "filtered_height_advanced_over_a_tampered_filter",
+                        // below the finalized check point no quorum is consulted: the filter was
+                        // checked against hashes that a single peer supplied
+                        if n <= finalized {
+                            "tampered_filter_accepted_below_the_finalized_check_point"
+                        } else {
+                            "filtered_height_advanced_over_a_tampered_filter"
+                        },
                         format!("s{}: height {} -> {}; the filter delivered for block #{} is not the block's filter ({})", session, before, after, n, t.note),
                     ));
                     break;
@@ -1496,7 +1504,9 @@ pub fn c06_after(ck: &mut Checker, sim: &mut Sim, session: usize, _p: Proto, dat
     }
     for (clause, detail) in findings {
         sim.violate("C06", clause, detail);
-        if clause == "matched_record_names_a_block_outside_the_filtered_range" {
+        if clause == "matched_record_names_a_block_outside_the_filtered_range"
+            || clause == "tampered_filter_accepted_below_the_finalized_check_point"
+        {
             sim.taint = Some(format!("C06/{}", clause));
         }
     }
